@@ -34,7 +34,7 @@ inductive OLabel
 deriving Repr
 
 def Label.isWaker : Label → Bool
-  | .take _ | .iterNext => false
+  | .take _ | .iterNext | .dropNext => false
   | _ => true
 
 def ostep (l : OLabel) (o : OSt) : Option OSt :=
